@@ -43,8 +43,8 @@ Section Model.
     match a with
     | AHandleOverwrite => handle_overwrite e s p (c_allow c)
     | AMkdirParents => mkdirs e None (ancestors e p) s
-    | AOpenWrite => fs_write e s p (render s (c_amb c) (c_class c) p)
-    | AShutilCopy => fs_copy e s p (render s (c_amb c) (c_class c) p) (c_resmode c)
+    | AOpenWrite => fs_write e s (resolve e p) (render s (c_amb c) (c_class c) p)          (* open() follows a link *)
+    | AShutilCopy => fs_copy e s (resolve e p) (render s (c_amb c) (c_class c) p) (c_resmode c)
     | AFilePPs => run_filepps e s p (c_filepps c)
     | ACallGenerateCode | ACallCopyLinePPs => (s, Err EModel)
     end.
@@ -110,9 +110,10 @@ Section Model.
     match snd x1, nth_error (items c) n with
     | Ok, Some it =>
         let x2 := run_acts e c (fst it) (firstn j (flat_acts c (snd it))) (fst x1) in
-        match snd x2, junk with
-        | Ok, Some g => fst (fs_write e (fst x2) (fst it) g)
-        | _, _ => fst x2
+        match snd x2, junk, nth_error (flat_acts c (snd it)) j with
+        | Ok, Some g, Some AOpenWrite | Ok, Some g, Some AShutilCopy =>      (* died inside the write that comes next *)
+            fst (fs_write e (fst x2) (resolve e (fst it)) g)
+        | _, _, _ => fst x2
         end
     | _, _ => fst x1        (* the run had already ended with an exception, or there is no such item *)
     end.
